@@ -283,6 +283,10 @@ class FnBuf:
             return (INF, "unknown", expr_str(n)[:40])
         if k == "Ref":
             if n.get("dk") == "param":
+                if (self.fn.name, n["n"]) in getattr(self, "param_ident", ()):
+                    return (INF, "ident", "parameter %s" % n["n"])
+                if getattr(self, "param_is_ident", False):
+                    return (INF, "ident", "parameter %s" % n["n"])
                 return (INF, "param", n["n"])
             if n.get("dk") in ("local",):
                 if n.get("d") in self.ptr_alias:
@@ -492,12 +496,12 @@ class FnBuf:
             if st is None:
                 return   # unreachable
             idx = add_iv(b[3], self.iv.eval(lhs["ch"][1], st))
-            self._index_site(stmt, b, idx, "store %s" % expr_str(lhs)[:50])
+            self._index_site(stmt, b, idx, "store %s" % expr_str(lhs)[:50], lhs)
         elif lhs["k"] == "Unary" and lhs["op"] == "*":
             b = self.dest(lhs["ch"][0], st)
             if not b or st is None:
                 return
-            self._index_site(stmt, b, b[3], "store %s" % expr_str(lhs)[:50])
+            self._index_site(stmt, b, b[3], "store %s" % expr_str(lhs)[:50], lhs)
 
     def _param_index_store(self, stmt, lhs):
         """P[i] = ... with P a char* parameter: part of the function's summary.
@@ -530,9 +534,65 @@ class FnBuf:
                            "what": "store %s" % expr_str(lhs)[:40], "detail": "writes through parameter `%s`: %s" % (base["n"], need),
                            "pidx": pidx, "need": need})
 
-    def _index_site(self, node, b, idx, what):
+    def _scan_source(self, node, lhs):
+        """`dst[i] = f(src[i])` inside `while (src[i] ...)` (same index): the store copies the string src"""
+        if lhs is None:
+            return None
+        if lhs["k"] == "Unary" and lhs["op"] == "*":
+            idx = strip(lhs["ch"][0])
+            while idx is not None and idx["k"] == "Unary":
+                idx = strip(idx["ch"][0])
+            lhs = {"k": "Subscript", "ch": [idx, idx]}
+        elif lhs["k"] != "Subscript":
+            return None
+        else:
+            idx = strip(lhs["ch"][1])
+        if idx is None or idx["k"] != "Ref":
+            return None
+        def scan_of(loop, same_index):
+            cond = loop["ch"][0] if loop["k"] == "While" else loop["ch"][1]
+            for x in walk(cond) if cond is not None else []:
+                if x["k"] == "Subscript":
+                    qb, qi = strip(x["ch"][0]), strip(x["ch"][1])
+                    if qb is None or self._array_of(qb) and self._array_of(qb)[0] == access_path(strip(lhs["ch"][0])):
+                        continue
+                    if not same_index or (qi is not None and qi["k"] == "Ref" and qi.get("d") == idx.get("d")):
+                        return qb
+                if x["k"] == "Unary" and x["op"] == "*":
+                    qb = strip(x["ch"][0])
+                    if not same_index and qb is not None and qb["k"] in ("Ref", "Unary"):
+                        while qb is not None and qb["k"] == "Unary":
+                            qb = strip(qb["ch"][0])
+                        return qb
+            return None
+        for a in self.fn.ancestors(node):
+            if a["k"] in ("While", "For"):
+                return scan_of(a, True) or scan_of(a, False)
+        # terminator store after the scan loop(s): the loop that advances the same index variable
+        for l in self.fn.walk():
+            if l["k"] in ("While", "For"):
+                adv = any(x["k"] == "Unary" and "++" in x["op"] and strip(x["ch"][0]).get("d") == idx.get("d") for x in walk(l))
+                if adv:
+                    q = scan_of(l, True) or scan_of(l, False)
+                    if q is not None:
+                        return q
+        return None
+
+    def _index_site(self, node, b, idx, what, lhs=None):
         path, N, ty, _ = b
         ok = idx[0] >= 0 and idx[1] <= N - 1
+        if not ok and idx[0] >= 0 and lhs is not None:
+            src = self._scan_source(node, lhs)
+            if src is not None:
+                ml = self.maxlen(src, None)
+
+                def site(ok2, cls, detail, lstar=None):
+                    self.sites.append({"node": node, "kind": "index", "buf": path, "cap": N, "ok": ok2, "cls": cls,
+                                       "what": what, "detail": detail, "lstar": lstar})
+                base_off = idx[0]
+                self._str_site(site, (ml[0] if ml[0] != INF else 0) + base_off, [(ml[1], ml[2])] if ml[0] == INF else [], N,
+                               "character-wise copy of %s" % ml[2])
+                return
         self.sites.append({"node": node, "kind": "index", "buf": path, "cap": N, "ok": ok, "cls": "ok" if ok else "unbounded",
                            "what": what, "detail": "index in [%s, %s], capacity %d" % (fmt_b(idx[0]), fmt_b(idx[1]), N)})
 
@@ -590,6 +650,8 @@ class FnBuf:
                     ml = self.maxlen(args[need[1]], st)
                     self._str_site(site2, ml[0] if ml[0] != INF else 0, [(ml[1], ml[2])] if ml[0] == INF else [], room,
                                    "%s copies %s" % (short, ml[2]))
+                elif need[0] == "unbounded" and len(need) > 2 and need[1] in ("ident", "path"):
+                    self._str_site(site2, 0, [(need[1], need[2])], room, "%s copies %s" % (short, need[2]))
                 else:
                     site2(False, "unbounded", "%s writes an unbounded amount through this argument" % short)
         if short not in STR_WRITERS and name not in STR_WRITERS:
@@ -613,7 +675,7 @@ class FnBuf:
             return
         if base in ("strcpy", "stpcpy"):
             ml = self.maxlen(args[1], st)
-            self._str_site(site, ml[0], [(ml[1], ml[2])] if ml[0] == INF else [], room, "copy of %s" % ml[2])
+            self._str_site(site, 0 if ml[0] == INF else ml[0], [(ml[1], ml[2])] if ml[0] == INF else [], room, "copy of %s" % ml[2])
         elif base == "strcat":
             ml = self.maxlen(args[1], st)
             prior = self._prior_content(c, path)
@@ -634,18 +696,23 @@ class FnBuf:
                 return
             tot, opens, probs = self.fmt_expansion(fmt.get("s", ""), args[2:], st)
             self._str_site(site, tot, opens, room, "expansion of %r" % fmt.get("s", "")[:40])
-        elif base in ("strncpy", "strncat", "snprintf", "vsnprintf", "fgets", "getcwd"):
-            n = self.iv.eval(args[2] if base in ("strncpy", "strncat") else args[1], st)
-            need = n[1] + (1 if base == "strncat" else 0)
-            if base == "strncat":
-                prior = self._prior_content(c, path)
-                need += prior[0]
-                if prior[1]:
-                    site(False, "unknown", "strncat after unbounded content")
-                    return
+        elif base == "strncat":
+            n = self.iv.eval(args[2], st)
+            ml = self.maxlen(args[1], st)
+            prior = self._prior_content(c, path)
+            if n[1] != INF and (ml[0] == INF or n[1] < ml[0]):
+                ml = (n[1], "array", "at most %d bytes of %s" % (n[1], ml[2]))
+            opens = ([(ml[1], ml[2])] if ml[0] == INF else []) + prior[1]
+            fixed = (0 if ml[0] == INF else ml[0]) + prior[0]
+            self._str_site(site, fixed, opens, room, "bounded append of %s after up to %d earlier bytes" % (ml[2], prior[0]))
+        elif base in ("strncpy", "snprintf", "vsnprintf", "fgets", "getcwd"):
+            n = self.iv.eval(args[2] if base in ("strncpy",) else args[1], st)
+            need = n[1]
             ok = need <= room
             site(ok, "ok" if ok else "unbounded", "size argument <= %s, room %s" % (fmt_b(n[1]), fmt_b(room)))
         elif base in ("memcpy", "memmove", "memset"):
+            if elem_size(ty) is None:
+                return      # aggregate elements: size algebra on sizeof(T) is not a string write
             n = self.iv.eval(args[2], st)
             ok = n[1] <= room * es
             site(ok, "ok" if ok else "unbounded", "byte count <= %s, room %s bytes" % (fmt_b(n[1]), fmt_b(room * es)))
@@ -674,6 +741,13 @@ class FnBuf:
                  "%s: fixed part %d bytes + %d schema identifier(s) (%s), room %s => safe for identifiers <= %s" %
                  (what, need, len(opens), ", ".join(t for _, t in opens)[:80], fmt_b(room), fmt_b(lstar)), lstar)
             return
+        if getattr(self, "param_is_ident", False) and classes <= {"ident", "unknown", "param", "array", "path"}:
+            lstar = (room - need) // len(opens) if room != INF else INF
+            ok = lstar >= 0
+            site(ok, "assume" if ok else "overflow",
+                 "%s: fixed part %d bytes + %d name operand(s) built from schema identifiers (%s), room %s => safe for names <= %s" %
+                 (what, need, len(opens), ", ".join(t for _, t in opens)[:80], fmt_b(room), fmt_b(lstar)), lstar)
+            return
         worst = "input" if "input" in classes else ("param" if classes <= {"param", "ident"} else "unknown")
         site(False, worst, "%s: operand(s) of unbounded length: %s" % (what, ", ".join("%s(%s)" % (t, c) for c, t in opens)[:120]))
 
@@ -682,9 +756,32 @@ class FnBuf:
         fixed = 0
         opens = []
         best_cpy = 0
+        cfg = self.fn.cfg
+        cpos = cfg.locate(c)
+        RESET = ("strcpy", "sprintf", "strncpy", "snprintf")
+        # latest content-resetting writer of this buffer that dominates c
+        last_reset = None
+        for n in self.fn.walk():
+            if n is c or n["k"] != "Call":
+                continue
+            short = (n.get("fn") or "").split("::")[-1].replace("__builtin_", "")
+            if short in RESET:
+                args = call_args(n)
+                b = self.dest(args[0], self.iv.state_at(n)) if args else None
+                if b and b[0] == path and b[3] == (0, 0) and cfg.locate(n) and cfg.dominates(cfg.locate(n), cpos) and cfg.locate(n) != cpos:
+                    if last_reset is None or cfg.dominates(cfg.locate(last_reset), cfg.locate(n)):
+                        last_reset = n
         for n in self.fn.walk():
             if n is c or n["k"] != "Call" or n["l"] > c["l"]:
                 continue
+            if last_reset is not None and n is not last_reset:
+                # only appends between the dominating reset and c matter
+                npos = cfg.locate(n)
+                if npos is None or not cfg.dominates(cfg.locate(last_reset), npos):
+                    continue
+                sh = (n.get("fn") or "").split("::")[-1].replace("__builtin_", "")
+                if sh in RESET:
+                    continue
             short = (n.get("fn") or "").split("::")[-1].replace("__builtin_", "")
             if short not in ("strcpy", "strcat", "sprintf", "strncpy", "strncat", "snprintf"):
                 continue
